@@ -12,24 +12,56 @@ from ..util import guards_of, raises_in, try_handlers_enclosing
 LIMIT_ERRORS = ("TimeLimitError", "MemoryLimitError")
 
 
+def own_js_name(ctx, ci) -> Optional[str]:
+    """The JS error name an errors-module class gives itself (second argument of super().__init__, or the
+    default of the base class's `name` parameter)."""
+    for c in ctx.tree.mro(ci):
+        init = c.methods.get("__init__")
+        if init is None:
+            continue
+        for n in init.own_nodes():
+            if isinstance(n, ast.Call) and isinstance(n.func, ast.Attribute) and n.func.attr == "__init__" and len(n.args) >= 2 and isinstance(n.args[1], ast.Constant):
+                return n.args[1].value
+        a = init.node.args
+        names = [x.arg for x in a.args]
+        if "name" in names:
+            k = names.index("name") - (len(names) - len(a.defaults))
+            if 0 <= k < len(a.defaults) and isinstance(a.defaults[k], ast.Constant):
+                return a.defaults[k].value
+    return None
+
+
 def converted_classes(ctx) -> Dict[str, str]:
-    """Exception classes that the main run loop turns into script-level throws: class -> JS error name."""
+    """Exception classes that the main run loop turns into script-level throws: class -> JS error name.
+
+    For every class of the errors module the handler chain around the dispatcher call is simulated in order:
+    the first handler that catches the class decides.  A handler that calls _handle_python_exception converts
+    (with a literal name, or with the exception's own `name`); a handler that only re-raises does not."""
     out: Dict[str, str] = {}
+    t = ctx.tree
     disp = {id(f) for f, _ in ctx.facts.dispatchers()}
+    errors_mod = t.mod("errors")
+    classes = [ci for ci in errors_mod.classes.values() if "JSError" in t.exc_ancestors(errors_mod, ci.name)]
     for f, loop in ctx.facts.dispatch_loops():
         for n in ast.walk(loop):
             if isinstance(n, ast.Try):
-                calls_disp = any(isinstance(c, ast.Call) and (ctx.cg.site_of_call.get(id(c)) and any(id(t) in disp for t in ctx.cg.site_of_call[id(c)].targets)) for s in n.body for c in ast.walk(s))
+                calls_disp = any(isinstance(c, ast.Call) and (ctx.cg.site_of_call.get(id(c)) and any(id(t_) in disp for t_ in ctx.cg.site_of_call[id(c)].targets)) for s in n.body for c in ast.walk(s))
                 if not calls_disp:
                     continue
-                for h in n.handlers:
-                    if h.type is None:
-                        continue
-                    for c in ast.walk(ast.Module(body=h.body, type_ignores=[])):
-                        if isinstance(c, ast.Call) and call_name(c) == "_handle_python_exception" and c.args and isinstance(c.args[0], ast.Constant):
-                            types = h.type.elts if isinstance(h.type, ast.Tuple) else [h.type]
-                            for t in types:
-                                out[norm(t)] = c.args[0].value
+                for ci in classes:
+                    for h in n.handlers:
+                        if not t.handler_catches(f.module, h, ci.name, errors_mod):
+                            continue
+                        for c in ast.walk(ast.Module(body=h.body, type_ignores=[])):
+                            if isinstance(c, ast.Call) and call_name(c) == "_handle_python_exception" and c.args:
+                                a0 = c.args[0]
+                                if isinstance(a0, ast.Constant):
+                                    out[ci.name] = a0.value
+                                elif isinstance(a0, ast.Attribute) and a0.attr == "name" and isinstance(a0.value, ast.Name) and a0.value.id == h.name:
+                                    nm = own_js_name(ctx, ci)
+                                    if nm:
+                                        out[ci.name] = nm
+                        break  # first matching handler decides
     return out
 
 
@@ -192,18 +224,12 @@ def rule_constructor_names(ctx, rep, rid: str) -> None:
     conv = converted_classes(ctx)
     errors_mod = ctx.tree.mod("errors")
     for cls, jsname in sorted(conv.items()):
-        ci = ctx.tree.resolve_class_name(ctx.tree.mod("vm"), cls)
+        ci = ctx.tree.resolve_class_name(ctx.tree.mod("vm"), cls) or ctx.tree.resolve_class_name(errors_mod, cls)
         key = f"convert:{cls}->{jsname}"
         if ci is None:
             rep.bad(rid, key, f"converted class {cls} is not a repo class", ctx.tree.mod("vm").rel + ":1")
             continue
-        # the class's own JS name (second argument of super().__init__)
-        own = None
-        init = ci.methods.get("__init__")
-        if init:
-            for n in init.own_nodes():
-                if isinstance(n, ast.Call) and isinstance(n.func, ast.Attribute) and n.func.attr == "__init__" and len(n.args) >= 2 and isinstance(n.args[1], ast.Constant):
-                    own = n.args[1].value
+        own = own_js_name(ctx, ci)
         if own != jsname:
             rep.bad(rid, key, f"{cls} (name {own!r}) is thrown to the script as {jsname!r}", f"{ci.module.rel}:{ci.node.lineno}")
         else:
@@ -323,10 +349,11 @@ def rule_positioned_syntax_errors(ctx, rep, rid: str) -> None:
 def rule_handler_stack_mutations(ctx, rep, rid: str) -> None:
     """Typestate of the handler stack: records are pushed only by TRY_START and removed only by TRY_END
     (normal completion), by the throw that uses them, or when the frame that owns them returns."""
-    rep.rule(rid, "the handler stack is pushed only by TRY_START and popped only by TRY_END, by the unwinding throw, and for records of a returning frame (compared by frame index)", floor=4)
+    rep.rule(rid, "the handler stack is pushed only by TRY_START and popped only by TRY_END, by the unwinding throw, and for records of a returning frame (compared by frame index)", floor=3)
     df, chain = ctx.facts.vm_dispatcher()
     cls = df.cls
     n = 0
+    roles = set()
     for m in cls.methods.values():
         aliases = {"self.exception_handlers"}
         for x in m.own_nodes():
@@ -354,10 +381,13 @@ def rule_handler_stack_mutations(ctx, rep, rid: str) -> None:
             ok = False
             if kind == "append" and where == "TRY_START":
                 ok = True
+                roles.add("push")
             elif kind == "pop" and where == "TRY_END":
                 ok = True
+                roles.add("pop-end")
             elif kind == "pop" and m.name == "_throw":
                 ok = True
+                roles.add("pop-throw")
             elif kind == "pop" and m is not df:
                 # frame clean-up: the pop must be guarded by a comparison of the record's frame index with the call depth
                 g = [norm(t) for t, pol in guards_of(x, m.node)]
@@ -366,5 +396,5 @@ def rule_handler_stack_mutations(ctx, rep, rid: str) -> None:
                 rep.ok(rid, key)
             else:
                 rep.bad(rid, key, f"{m.qual} ({where}) {kind}s the handler stack outside the protocol: a record that belongs to a live try block (possibly of another frame) can be removed or duplicated, so a later throw skips its catch/finally or lands in the wrong one", loc)
-    if n < 4:
-        raise AnalysisError(f"only {n} handler-stack mutation sites found")
+    if roles != {"push", "pop-end", "pop-throw"}:
+        raise AnalysisError(f"handler-stack protocol anchors not all found (saw {sorted(roles)})")
